@@ -19,7 +19,7 @@ theorem blacklist_prefix_free :
     ∀ a ∈ tagBlacklist, ∀ b ∈ tagBlacklist, isPrefixCI a b = true → a = b := by decide
 
 theorem delimAt_eq_tagDelim (l : Bytes) (j : Nat) (h : j < l.length) :
-    delimAt l j = some (tagDelimW isSpace (l.drop j)) := by
+    delimAt l j = some (tagDelimW htmlSpace (l.drop j)) := by
   induction l generalizing j with
   | nil => simp at h
   | cons c r ih =>
